@@ -26,6 +26,7 @@ type Params struct {
 	Faults    []string
 	Initial   string // none | zero | valid
 	ConstMeta bool   // all marks/resets carry the same (empty) metadata
+	Split     bool   // the second managed partition is u/1 instead of t/1 (a commit request spanning two topics)
 	RetryMax  int
 	MaxOps    int // marks+resets per partition
 	Gates     map[string]bool
@@ -47,7 +48,7 @@ func atoi(v url.Values, k string, def int) int {
 
 func init() {
 	gx.RegisterRig("om", func(v url.Values) (*gx.Scenario, error) {
-		p := &Params{NParts: atoi(v, "np", 1), Auto: atoi(v, "auto", 1) == 1, Retention: atoi(v, "ret", 0) == 1, Initial: v.Get("init"), ConstMeta: v.Get("meta") == "const",
+		p := &Params{NParts: atoi(v, "np", 1), Auto: atoi(v, "auto", 1) == 1, Retention: atoi(v, "ret", 0) == 1, Initial: v.Get("init"), ConstMeta: v.Get("meta") == "const", Split: atoi(v, "split", 0) == 1,
 			RetryMax: atoi(v, "rm", 1), MaxOps: atoi(v, "ops", 2), CloseAny: atoi(v, "closeany", 1) == 1,
 			ErrBuf: atoi(v, "errbuf", 16), SlowErr: atoi(v, "slowerr", 0) == 1}
 		if p.Initial == "" {
@@ -86,6 +87,7 @@ type pstate struct {
 }
 
 type rig struct {
+	topicOf         func(int32) string
 	p               *Params
 	c               *gx.Ctl
 	cl              *simkafka.Cluster
@@ -117,17 +119,28 @@ func run(c *gx.Ctl, p *Params) *gx.Outcome {
 		leaders = append(leaders, 1)
 	}
 	cl.AddTopic("t", leaders...)
+	if p.Split {
+		// split=1: the second managed partition lives in another topic (u/1), so that one commit request spans topics
+		cl.AddTopic("u", 1, 1)
+	}
+	topicOf := func(k int32) string {
+		if p.Split && k == 1 {
+			return "u"
+		}
+		return "t"
+	}
+	r.topicOf = topicOf
 	cl.CommitFaults = p.Faults
 	g := cl.Group(group)
 	if p.Initial == "valid" {
 		for i := 0; i < p.NParts; i++ {
-			g.Offsets[simkafka.TP{Topic: "t", Partition: int32(i)}] = simkafka.StoredOffset{Offset: 5, Metadata: "init"}
+			g.Offsets[simkafka.TP{Topic: topicOf(int32(i)), Partition: int32(i)}] = simkafka.StoredOffset{Offset: 5, Metadata: "init"}
 		}
 	}
 	if p.Initial == "zero" {
 		// a commit at offset 0 is a stored position, not "none"
 		for i := 0; i < p.NParts; i++ {
-			g.Offsets[simkafka.TP{Topic: "t", Partition: int32(i)}] = simkafka.StoredOffset{Offset: 0, Metadata: "init0"}
+			g.Offsets[simkafka.TP{Topic: topicOf(int32(i)), Partition: int32(i)}] = simkafka.StoredOffset{Offset: 0, Metadata: "init0"}
 		}
 	}
 	c.AutoRelease = func(site string) bool { return !p.Gates[site] }
@@ -186,7 +199,7 @@ func run(c *gx.Ctl, p *Params) *gx.Outcome {
 		}
 		r.om = om
 		for i, ps := range r.ps {
-			pom, err := om.ManagePartition("t", int32(i))
+			pom, err := om.ManagePartition(r.topicOf(int32(i)), int32(i))
 			if err != nil {
 				r.fail(err)
 				return
@@ -198,7 +211,7 @@ func run(c *gx.Ctl, p *Params) *gx.Outcome {
 			ps.initial = pair{off, meta}
 			r.mu.Unlock()
 			// NextOffset of a fresh manager: the stored position, or the configured initial position
-			so, ok := g.Offsets[simkafka.TP{Topic: "t", Partition: int32(i)}]
+			so, ok := g.Offsets[simkafka.TP{Topic: r.topicOf(int32(i)), Partition: int32(i)}]
 			want := pair{sarama.OffsetOldest, ""}
 			if ok {
 				want = pair{so.Offset, so.Metadata}
@@ -530,7 +543,7 @@ func (r *rig) judge() *gx.Outcome {
 	// (2) while nothing is in flight, a position that differs from the store is dirty (a later commit carries it)
 	if !r.inflight() && !r.closing {
 		for _, ps := range poms {
-			so, ok := g.Offsets[simkafka.TP{Topic: "t", Partition: ps.Partition}]
+			so, ok := g.Offsets[simkafka.TP{Topic: r.topicOf(ps.Partition), Partition: ps.Partition}]
 			same := ok && so.Offset == ps.Offset && so.Metadata == ps.Metadata
 			if !ok && r.ps[ps.Partition].latest == nil {
 				same = true
@@ -558,7 +571,7 @@ func (r *rig) judge() *gx.Outcome {
 				if ps.latest == nil {
 					continue
 				}
-				so, ok := g.Offsets[simkafka.TP{Topic: "t", Partition: int32(k)}]
+				so, ok := g.Offsets[simkafka.TP{Topic: r.topicOf(int32(k)), Partition: int32(k)}]
 				if !ok || so.Offset != ps.latest.off || so.Metadata != ps.latest.meta {
 					out.Violate("C06", "final-commit-lost-mark", "partition %d: Close returned (auto-commit on, final attempts accepted) but the coordinator stores (%d,%q), latest mark before Close was (%d,%q); %s", k, so.Offset, so.Metadata, ps.latest.off, ps.latest.meta, hist())
 				}
